@@ -25,6 +25,8 @@ CONSTANTS
   ND,        \* number of distinct computations
   KeyOf,     \* KeyOf[d]: storage location of computation d (identity unless collisions are modelled)
   NK,        \* number of locations
+  NameMode,  \* TRUE: non-parameter mode - a result is stored under the NAME of the config that declares the task
+  CfgName,   \* CfgName[rc][n]: that name
   Lists,     \* the lists of configurations a (Multi)Chain may be built from: set of sequences over RCs
   Slots,     \* chain variables of the program
   ForceSets, \* ForceSets[rc]: the sets of nodes chain.force is tried with
@@ -39,8 +41,10 @@ CONSTANTS
 (* is also the reference value Ref(rc, n) of C01.                          *)
 (***************************************************************************)
 RECURSIVE Desc(_, _)
-Desc(rc, n) == [c |-> Class[rc][n], p |-> PVal[rc][n],
-                i |-> [k \in 1..Len(Deps[rc][n]) |-> Desc(rc, Deps[rc][n][k])]]
+Desc(rc, n) == IF NameMode
+               THEN [c |-> Class[rc][n], cfg |-> CfgName[rc][n]]      \* identity of a task in non-parameter mode
+               ELSE [c |-> Class[rc][n], p |-> PVal[rc][n],
+                     i |-> [k \in 1..Len(Deps[rc][n]) |-> Desc(rc, Deps[rc][n][k])]]
 
 Pairs == UNION {{<<rc, n>> : n \in Nodes[rc]} : rc \in RCs}
 Ds == 1..ND
